@@ -157,7 +157,7 @@ deriving DecidableEq, Repr, Inhabited
 inductive BObj
   | container (kind : NKind) (ty : String) (children : List (PElem × BVal))
   | call (fn : String) (slots : List (String × BVal)) (var : List BVal) (kw : List (String × BVal))
-deriving Repr, Inhabited
+deriving DecidableEq, Repr, Inhabited
 
 structure BuildSt where
   memo : List (Nat × BVal) := []
